@@ -347,12 +347,14 @@ package tds
 //@   modifies
 //@   ensures [same] ip == queue.indexPacket && id == queue.indexData
 //@ func (*PacketQueue).SetPosition
+//@   requires [rx-only] !queue.$writable
 //@   requires [in-range] 0 <= indexPacket && indexPacket <= len(queue.queue) && 0 <= indexData
 //@   requires [valid] queue.$readable ==> pqvalid(queue, indexPacket, indexData)
 //@   modifies queue.indexPacket, queue.indexData, queue.$r
 //@   ghost-update at exit: queue.$r := pqpos(queue)
 //@   ensures [set] queue.indexPacket == indexPacket && queue.indexData == indexData
 //@ func (*PacketQueue).AddPacket
+//@   requires [rx-only] !queue.$writable
 //@   cut typeinv PacketQueue/content by this.$readable ==> old(pqc(this, j, i))
 //@   requires [nonnil] packet != nil
 //@   requires [not-queued] forall j int :: 0 <= j && j < len(queue.queue) ==> queue.queue[j] != packet
@@ -367,19 +369,19 @@ package tds
 //@   ensures [prefix] forall k int :: k < old(queue.$end) ==> queue.$in[k] == old(queue.$in[k])
 
 //@ # helper readers (inlined at their call sites; verified on their own under the same discipline)
-//@ func readLengthBytes returns (length, err)
+//@ func readLengthBytes returns (length, err) inline
 //@   requires [readable] ch.$readable
-//@ func (*fieldFmtBase).readFromBase returns (n, err)
+//@ func (*fieldFmtBase).readFromBase returns (n, err) inline
 //@   requires [readable] ch.$readable
-//@ func (*fieldFmtBaseScale).readFromScale returns (n, err)
+//@ func (*fieldFmtBaseScale).readFromScale returns (n, err) inline
 //@   requires [readable] ch.$readable
-//@ func (*fieldFmtBasePrecision).readFromPrecision returns (n, err)
+//@ func (*fieldFmtBasePrecision).readFromPrecision returns (n, err) inline
 //@   requires [readable] ch.$readable
-//@ func (*ParamFmtPackage).ReadFromField returns (f, n, err)
+//@ func (*ParamFmtPackage).ReadFromField returns (f, n, err) inline
 //@   requires [readable] ch.$readable
-//@ func (*RowFmtPackage).ReadFromField returns (f, n, err)
+//@ func (*RowFmtPackage).ReadFromField returns (f, n, err) inline
 //@   requires [readable] ch.$readable
-//@ func (*EnvChangePackageField).ReadFrom returns (n, err)
+//@ func (*EnvChangePackageField).ReadFrom returns (n, err) inline
 //@   requires [readable] ch.$readable
 
 //@ func NewPacketQueue returns (q)
@@ -402,6 +404,11 @@ package tds
 //@   cut typeinv PacketQueue/elems by old(pqelem(this, j + pqdropped(this)))
 //@   cut typeinv PacketQueue/s1 by this.$readable ==> old(pqs1at(this, j + pqdropped(this)))
 //@   cut typeinv PacketQueue/s3 by this.$readable ==> old(pqs3at(this, j + pqdropped(this)))
+//@   cut typeinv PacketQueue/t1 by this.$writable ==> old(pqt1at(this, j + pqdropped(this)))
+//@   cut typeinv PacketQueue/tdist by this.$writable ==> old(pqtdist(this, j + pqdropped(this), k + pqdropped(this)))
+//@   cut typeinv PacketQueue/tchain by this.$writable ==> old(pqtchain(this, j + pqdropped(this)))
+//@   cut typeinv PacketQueue/tcontent by this.$writable ==> old(pqtc(this, j + pqdropped(this), i)) && old(pqt1at(this, j + pqdropped(this)))
+//@   cut typeinv PacketQueue/tbelow by this.$writable ==> old(pqtbelow(this, j + pqdropped(this), this.$w))
 //@   cut typeinv PacketQueue/content by this.$readable ==> old(pqc(this, j + pqdropped(this), i))
 //@   modifies queue.queue, queue.indexPacket, queue.indexData
 //@   ensures [position-kept] queue.$readable ==> queue.$r == old(queue.$r)
@@ -412,9 +419,9 @@ package tds
 //@   loop 0:
 //@     invariant [bounds] 0 <= bsOffset && bsOffset < n && len(bs) == n && fresh(bs)
 //@     invariant [pos] pqvalid(queue, queue.indexPacket, queue.indexData) && pqpos(queue) == old(queue.$r) + bsOffset
-//@     invariant [copied] forall k int :: 0 <= k && k < bsOffset ==> bs[k] == queue.$in[old(queue.$r) + k] by head(pqc(queue, queue.indexPacket, queue.indexData + (k - bsOffset)))
+//@     invariant [copied] forall k int :: 0 <= k && k < bsOffset ==> bs[k] == queue.$in[old(queue.$r) + k] by@keep head(pqc(queue, queue.indexPacket, queue.indexData + (k - bsOffset)))
 //@     invariant [content] queue.$readable ==> pqcontent(queue)
-//@     exitinv [copied] forall k int :: 0 <= k && k < bsOffset ==> bs[k] == queue.$in[old(queue.$r) + k] by head(pqc(queue, queue.indexPacket, queue.indexData + (k - bsOffset)))
+//@     exitinv [copied] forall k int :: 0 <= k && k < bsOffset ==> bs[k] == queue.$in[old(queue.$r) + k] by@keep head(pqc(queue, queue.indexPacket, queue.indexData + (k - bsOffset)))
 //@     exitinv [pos] len(bs) == n && pqvalid(queue, queue.indexPacket, queue.indexData) && pqpos(queue) == old(queue.$r) + bsOffset
 
 //@ # Read is PacketQueue's io.Reader face; it is specified over the queue's own stream
@@ -465,14 +472,16 @@ package tds
 //@   requires [writable] this.$writable
 //@   requires [chwf] chwf(this)
 //@   modifies this.*, this.$w, this.$out, all Packet.Data, all Packet.Header, all elems *tds.Packet, all elems byte, all Packet.$pos
-//@   ensures [appended] err == nil ==> this.$w == old(this.$w) + len(bs) && (forall k int :: 0 <= k && k < len(bs) ==> this.$out[old(this.$w) + k] == bs[k])
+//@   ensures [appended] err == nil ==> this.$w == old(this.$w) + len(bs) && (forall k int :: 0 <= k && k < len(bs) ==> this.$out[old(this.$w) + k] == old(bs[k]))
 //@   ensures [prefix-kept] forall k int :: 0 <= k && k < old(this.$w) ==> this.$out[k] == old(this.$out[k])
 //@   ensures [chwf] chwf(this)
 
+//@ pred pqtdcur(q *PacketQueue, j int) { 0 <= j && j < len(q.queue) && j != q.indexPacket && q.indexPacket < len(q.queue) ==> arr(q.queue[j].Data) != arr(q.queue[q.indexPacket].Data) }
 //@ pred pqnoalias(q *PacketQueue, j int, bs []byte) { 0 <= j && j < len(q.queue) ==> arr(q.queue[j].Data) != arr(bs) }
 //@ # content of the queue while bs is being written: bytes already in $out, then bytes of bs
 //@ pred pqtcw(q *PacketQueue, j int, i int, bs []byte) { 0 <= j && j < len(q.queue) && 0 <= i && (j < q.indexPacket ? i < len(q.queue[j].Data) : i < q.indexData) ==> q.queue[j].Data[i] == (q.queue[j].$pos + i < old(q.$w) ? old(q.$out[q.queue[j].$pos + i]) : bs[q.queue[j].$pos + i - old(q.$w)]) }
 //@ func (*PacketQueue).WriteBytes returns (err) per-return
+//@   cut typeinv PacketQueue/tcontent by this.$writable ==> old(pqtc(this, j, i)) && pqtcw(this, j, i, bs) && pqt1at(this, j) && pqtbelow(this, j, old(this.$w) + len(bs))
 //@   requires [no-alias] forall j int :: 0 <= j && j < len(queue.queue) ==> arr(queue.queue[j].Data) != arr(bs)
 //@   modifies queue.queue, queue.indexPacket, queue.indexData, queue.$w, queue.$out, all Packet.Data, all Packet.Header, all elems *tds.Packet, all elems byte, all Packet.$pos
 //@   ensures [never-fails] err == nil
@@ -490,5 +499,117 @@ package tds
 //@     invariant [chain] forall j int :: queue.$writable ==> pqtchain(queue, j) by@keep queue.$writable ==> head(pqtchain(queue, j)) && head(pqt1at(queue, j)) && head(pqt1at(queue, j + 1))
 //@     invariant [pos] queue.$writable ==> (len(queue.queue) == 0 ==> bsOffset == 0) && (len(queue.queue) > 0 ==> queue.queue[queue.indexPacket].$pos + queue.indexData == old(queue.$w) + bsOffset)
 //@     invariant [noalias] forall j int :: pqnoalias(queue, j, bs) by@keep head(pqnoalias(queue, j, bs))
+//@     invariant [noalias-cur] pqnoalias(queue, queue.indexPacket, bs)
+//@     invariant [dcur] forall j int :: queue.$writable ==> pqtdcur(queue, j) by@entry queue.$writable ==> old(pqtdist(queue, j, queue.indexPacket)) && old(pqtdist(queue, queue.indexPacket, j)) by@keep queue.$writable ==> head(pqtdcur(queue, j)) && head(pqt1at(queue, j))
 //@     invariant [below] forall j int :: queue.$writable ==> pqtbelow(queue, j, old(queue.$w) + bsOffset) by@keep queue.$writable ==> head(pqtbelow(queue, j, old(queue.$w) + bsOffset)) && head(pqt1at(queue, j))
-//@     invariant [content] forall j int, i int :: queue.$writable ==> pqtcw(queue, j, i, bs) by@entry queue.$writable ==> old(pqtc(queue, j, i)) && old(pqtbelow(queue, j, queue.$w)) && old(pqt1at(queue, j)) by@keep queue.$writable ==> head(pqtcw(queue, j, i, bs)) && head(pqt1at(queue, j)) && head(pqtdist(queue, j, queue.indexPacket)) && head(pqnoalias(queue, j, bs))
+//@     invariant [content] forall j int, i int :: queue.$writable ==> pqtcw(queue, j, i, bs) by@entry queue.$writable ==> old(pqtc(queue, j, i)) && old(pqtbelow(queue, j, queue.$w)) && old(pqt1at(queue, j)) by@keep queue.$writable ==> head(pqtcw(queue, j, i, bs)) && head(pqt1at(queue, j)) && head(pqtdcur(queue, j)) && head(pqnoalias(queue, j, bs))
+
+//@ # typed writers: little-endian bytes appended to $out (two's complement for signed values:
+//@ # / and % are floor division and non-negative remainder on mathematical integers)
+//@ interface BytesChannel.WriteByte params (v) returns (err)
+//@   requires [writable] this.$writable
+//@   requires [chwf] chwf(this)
+//@   modifies this.*, this.$w, this.$out, all Packet.Data, all Packet.Header, all elems *tds.Packet, all elems byte, all Packet.$pos
+//@   ensures [appended] err == nil ==> this.$w == old(this.$w) + 1
+//@   ensures [byte0] err == nil ==> this.$out[old(this.$w) + 0] == (v / 1) % 256
+//@   ensures [prefix-kept] forall k int :: 0 <= k && k < old(this.$w) ==> this.$out[k] == old(this.$out[k])
+//@   ensures [chwf] chwf(this)
+//@ interface BytesChannel.WriteUint8 params (v) returns (err)
+//@   requires [writable] this.$writable
+//@   requires [chwf] chwf(this)
+//@   modifies this.*, this.$w, this.$out, all Packet.Data, all Packet.Header, all elems *tds.Packet, all elems byte, all Packet.$pos
+//@   ensures [appended] err == nil ==> this.$w == old(this.$w) + 1
+//@   ensures [byte0] err == nil ==> this.$out[old(this.$w) + 0] == (v / 1) % 256
+//@   ensures [prefix-kept] forall k int :: 0 <= k && k < old(this.$w) ==> this.$out[k] == old(this.$out[k])
+//@   ensures [chwf] chwf(this)
+//@ interface BytesChannel.WriteInt8 params (v) returns (err)
+//@   requires [writable] this.$writable
+//@   requires [chwf] chwf(this)
+//@   modifies this.*, this.$w, this.$out, all Packet.Data, all Packet.Header, all elems *tds.Packet, all elems byte, all Packet.$pos
+//@   ensures [appended] err == nil ==> this.$w == old(this.$w) + 1
+//@   ensures [byte0] err == nil ==> this.$out[old(this.$w) + 0] == (v / 1) % 256
+//@   ensures [prefix-kept] forall k int :: 0 <= k && k < old(this.$w) ==> this.$out[k] == old(this.$out[k])
+//@   ensures [chwf] chwf(this)
+//@ interface BytesChannel.WriteUint16 params (v) returns (err)
+//@   requires [writable] this.$writable
+//@   requires [chwf] chwf(this)
+//@   modifies this.*, this.$w, this.$out, all Packet.Data, all Packet.Header, all elems *tds.Packet, all elems byte, all Packet.$pos
+//@   ensures [appended] err == nil ==> this.$w == old(this.$w) + 2
+//@   ensures [byte0] err == nil ==> this.$out[old(this.$w) + 0] == (v / 1) % 256
+//@   ensures [byte1] err == nil ==> this.$out[old(this.$w) + 1] == (v / 256) % 256
+//@   ensures [prefix-kept] forall k int :: 0 <= k && k < old(this.$w) ==> this.$out[k] == old(this.$out[k])
+//@   ensures [chwf] chwf(this)
+//@ interface BytesChannel.WriteInt16 params (v) returns (err)
+//@   requires [writable] this.$writable
+//@   requires [chwf] chwf(this)
+//@   modifies this.*, this.$w, this.$out, all Packet.Data, all Packet.Header, all elems *tds.Packet, all elems byte, all Packet.$pos
+//@   ensures [appended] err == nil ==> this.$w == old(this.$w) + 2
+//@   ensures [byte0] err == nil ==> this.$out[old(this.$w) + 0] == (v / 1) % 256
+//@   ensures [byte1] err == nil ==> this.$out[old(this.$w) + 1] == (v / 256) % 256
+//@   ensures [prefix-kept] forall k int :: 0 <= k && k < old(this.$w) ==> this.$out[k] == old(this.$out[k])
+//@   ensures [chwf] chwf(this)
+//@ interface BytesChannel.WriteUint32 params (v) returns (err)
+//@   requires [writable] this.$writable
+//@   requires [chwf] chwf(this)
+//@   modifies this.*, this.$w, this.$out, all Packet.Data, all Packet.Header, all elems *tds.Packet, all elems byte, all Packet.$pos
+//@   ensures [appended] err == nil ==> this.$w == old(this.$w) + 4
+//@   ensures [byte0] err == nil ==> this.$out[old(this.$w) + 0] == (v / 1) % 256
+//@   ensures [byte1] err == nil ==> this.$out[old(this.$w) + 1] == (v / 256) % 256
+//@   ensures [byte2] err == nil ==> this.$out[old(this.$w) + 2] == (v / 65536) % 256
+//@   ensures [byte3] err == nil ==> this.$out[old(this.$w) + 3] == (v / 16777216) % 256
+//@   ensures [prefix-kept] forall k int :: 0 <= k && k < old(this.$w) ==> this.$out[k] == old(this.$out[k])
+//@   ensures [chwf] chwf(this)
+//@ interface BytesChannel.WriteInt32 params (v) returns (err)
+//@   requires [writable] this.$writable
+//@   requires [chwf] chwf(this)
+//@   modifies this.*, this.$w, this.$out, all Packet.Data, all Packet.Header, all elems *tds.Packet, all elems byte, all Packet.$pos
+//@   ensures [appended] err == nil ==> this.$w == old(this.$w) + 4
+//@   ensures [byte0] err == nil ==> this.$out[old(this.$w) + 0] == (v / 1) % 256
+//@   ensures [byte1] err == nil ==> this.$out[old(this.$w) + 1] == (v / 256) % 256
+//@   ensures [byte2] err == nil ==> this.$out[old(this.$w) + 2] == (v / 65536) % 256
+//@   ensures [byte3] err == nil ==> this.$out[old(this.$w) + 3] == (v / 16777216) % 256
+//@   ensures [prefix-kept] forall k int :: 0 <= k && k < old(this.$w) ==> this.$out[k] == old(this.$out[k])
+//@   ensures [chwf] chwf(this)
+//@ interface BytesChannel.WriteUint64 params (v) returns (err)
+//@   requires [writable] this.$writable
+//@   requires [chwf] chwf(this)
+//@   modifies this.*, this.$w, this.$out, all Packet.Data, all Packet.Header, all elems *tds.Packet, all elems byte, all Packet.$pos
+//@   ensures [appended] err == nil ==> this.$w == old(this.$w) + 8
+//@   ensures [byte0] err == nil ==> this.$out[old(this.$w) + 0] == (v / 1) % 256
+//@   ensures [byte1] err == nil ==> this.$out[old(this.$w) + 1] == (v / 256) % 256
+//@   ensures [byte2] err == nil ==> this.$out[old(this.$w) + 2] == (v / 65536) % 256
+//@   ensures [byte3] err == nil ==> this.$out[old(this.$w) + 3] == (v / 16777216) % 256
+//@   ensures [byte4] err == nil ==> this.$out[old(this.$w) + 4] == (v / 4294967296) % 256
+//@   ensures [byte5] err == nil ==> this.$out[old(this.$w) + 5] == (v / 1099511627776) % 256
+//@   ensures [byte6] err == nil ==> this.$out[old(this.$w) + 6] == (v / 281474976710656) % 256
+//@   ensures [byte7] err == nil ==> this.$out[old(this.$w) + 7] == (v / 72057594037927936) % 256
+//@   ensures [prefix-kept] forall k int :: 0 <= k && k < old(this.$w) ==> this.$out[k] == old(this.$out[k])
+//@   ensures [chwf] chwf(this)
+//@ interface BytesChannel.WriteInt64 params (v) returns (err)
+//@   requires [writable] this.$writable
+//@   requires [chwf] chwf(this)
+//@   modifies this.*, this.$w, this.$out, all Packet.Data, all Packet.Header, all elems *tds.Packet, all elems byte, all Packet.$pos
+//@   ensures [appended] err == nil ==> this.$w == old(this.$w) + 8
+//@   ensures [byte0] err == nil ==> this.$out[old(this.$w) + 0] == (v / 1) % 256
+//@   ensures [byte1] err == nil ==> this.$out[old(this.$w) + 1] == (v / 256) % 256
+//@   ensures [byte2] err == nil ==> this.$out[old(this.$w) + 2] == (v / 65536) % 256
+//@   ensures [byte3] err == nil ==> this.$out[old(this.$w) + 3] == (v / 16777216) % 256
+//@   ensures [byte4] err == nil ==> this.$out[old(this.$w) + 4] == (v / 4294967296) % 256
+//@   ensures [byte5] err == nil ==> this.$out[old(this.$w) + 5] == (v / 1099511627776) % 256
+//@   ensures [byte6] err == nil ==> this.$out[old(this.$w) + 6] == (v / 281474976710656) % 256
+//@   ensures [byte7] err == nil ==> this.$out[old(this.$w) + 7] == (v / 72057594037927936) % 256
+//@   ensures [prefix-kept] forall k int :: 0 <= k && k < old(this.$w) ==> this.$out[k] == old(this.$out[k])
+//@   ensures [chwf] chwf(this)
+//@ interface BytesChannel.WriteString params (s) returns (err)
+//@   requires [writable] this.$writable
+//@   requires [chwf] chwf(this)
+//@   modifies this.*, this.$w, this.$out, all Packet.Data, all Packet.Header, all elems *tds.Packet, all elems byte, all Packet.$pos
+//@   ensures [appended] err == nil ==> this.$w == old(this.$w) + len(s) && (forall k int :: 0 <= k && k < len(s) ==> this.$out[old(this.$w) + k] == sat(s, k))
+//@   ensures [prefix-kept] forall k int :: 0 <= k && k < old(this.$w) ==> this.$out[k] == old(this.$out[k])
+//@   ensures [chwf] chwf(this)
+//@ func (*PacketQueue).Write returns (n, err) noiface:io.Writer.Write
+//@   requires [writable] queue.$writable
+//@   requires [chwf] chwf(queue)
+//@   requires [no-alias] forall j int :: 0 <= j && j < len(queue.queue) ==> arr(queue.queue[j].Data) != arr(p)
+//@   modifies queue.queue, queue.indexPacket, queue.indexData, queue.$w, queue.$out, all Packet.Data, all Packet.Header, all elems *tds.Packet, all elems byte, all Packet.$pos
+//@   ensures [all-written] err == nil && n == len(p) && queue.$w == old(queue.$w) + len(p)
